@@ -2,11 +2,11 @@
 Driver for stream `tokens` (C05).  One op per line, one observation per line.
 
   case K                                              -> case K
-  init NOTARY NEOC GASC POLICYC C V ATTRFEE NOMINT GENESIS GASINIT STANDBY KEYACC MSIG CONTRACTS
+  init NOTARY NEOC GASC POLICYC C V ATTRFEE NOMINT GENESIS GASINIT STANDBY KEYACC MSIG CONTRACTS DESIGC
                                                       -> ok            state after block 0's OnPersist (natives initialised)
        STANDBY k,k,..   KEYACC k:acc,..   MSIG acc:k:k:..,..|-   CONTRACTS acc:w|x|a,.. (wallet / no callback / accepts)
   block IDX                                           -> ok | ok cc    cc = CommitteeChanged is emitted
-  onpersist PRIMARYINDEX NOTARIES NTX {SENDER SYS NET NKEYS|- PAYER|-}*     -> ok | ok uncovered | panic | bad-op
+  onpersist PRIMARYINDEX NTX {SENDER SYS NET NKEYS|- PAYER|-}*              -> ok | ok uncovered | panic | bad-op
                                                       (uncovered: the hypothesis of onpersist_total fails on this block)
   tx SENDER SIGNERS                                   -> ok            SIGNERS acc:scopes[:allowed..][:r:±COND..],..
                                                       COND prefix notation, `.`-separated: T F N A O E S<id> C<id> G H
@@ -14,7 +14,7 @@ Driver for stream `tokens` (C05).  One op per line, one observation per line.
                                                                        CALLER = calling contract or - (entry script)
   vote ACC PUB|- CALLER | register PUB CALLER | unregister PUB CALLER | lock ACC TILL CALLER
   withdraw SRC DST|- CALLER | setgpb GAS CALLER | setregprice P CALLER
-  blockacc ACC CALLER | unblockacc ACC CALLER | endcb                                 -> .
+  blockacc ACC CALLER | unblockacc ACC CALLER | designate ACC,ACC,..|- CALLER | endcb                                 -> .
   endtx ABORT                                         -> HALT r1 r2 .. | FAULT
   postpersist                                         -> ok | panic
   endblock                                            -> st neo=.. gas=.. cands=.. vc=.. dep=.. gpv=.. cm=.. nv=.. nev=..
@@ -188,12 +188,13 @@ def parseMsig (s : String) : Option (Nat × List Nat) :=
 
 def parseOp : List String → Option Op
   | ["block", i] => do pure (.block (← i.toNat?))
-  | "onpersist" :: primary :: notaries :: ntx :: rest => do
+  | "onpersist" :: primary :: ntx :: rest => do
     let p ← primary.toNat?
-    let ns ← parseNatList notaries
     let n ← ntx.toNat?
     let txs ← parseTxs n rest
-    pure (.onPersist p ns txs)
+    -- the designated notary nodes are filled in from the model's ledger (TokensDrv.step)
+    pure (.onPersist p [] txs)
+  | ["designate", ns, c] => do pure (.designate (← parseNatList ns) (← optNat c))
   | ["tx", s, sg] => do pure (.txBegin (← s.toNat?) (← parseList parseSigner sg))
   | "transfer" :: t :: src :: dst :: amt :: c :: recv :: data => do
     pure (.transfer (← parseTok t) (← src.toNat?) (← dst.toNat?) (← amt.toInt?) (← optNat c) (← parseDk recv) (← parseData data))
@@ -234,17 +235,17 @@ def output (s : St) (op : Op) (s' : St) : String :=
 def step (s : Option St) (ws : List String) : Option St × String :=
   match ws with
   | ["case", k] => (none, s!"case {k}")
-  | ["init", notary, neoC, gasC, policyC, c, v, fee, nm, g, gi, sb, ka, ms, cts] =>
+  | ["init", notary, neoC, gasC, policyC, c, v, fee, nm, g, gi, sb, ka, ms, cts, dc] =>
     match notary.toNat?, neoC.toNat?, gasC.toNat?, policyC.toNat?, c.toNat?, v.toNat?, fee.toInt?, parseNatList nm,
-        g.toNat?, gi.toInt?, parseNatList sb, parseList parsePair ka, parseList parseMsig ms, parseList parseContract cts with
+        g.toNat?, gi.toInt?, parseNatList sb, parseList parsePair ka, parseList parseMsig ms, parseList parseContract cts, dc.toNat? with
     | some notary, some neoC, some gasC, some policyC, some c, some v, some fee, some nm, some g, some gi, some sb,
-        some ka, some ms, some cts =>
+        some ka, some ms, some cts, some dc =>
       let e : Env := { notary := notary, neoC := neoC, csize := c, vcount := v, attrFee := fee, noMint := nm,
-                       standby := sb, keyAcc := ka, gasC := gasC, policyC := policyC, msig := ms, contracts := cts }
+                       standby := sb, keyAcc := ka, gasC := gasC, policyC := policyC, msig := ms, contracts := cts, desigC := dc }
       match genesis e g gi with
       | some l => (some (initSt e l), "ok")
       | none => (none, "panic")
-    | _, _, _, _, _, _, _, _, _, _, _, _, _, _ => (s, "bad-op")
+    | _, _, _, _, _, _, _, _, _, _, _, _, _, _, _ => (s, "bad-op")
   | ["endblock"] =>
     match s with
     | some st => (s, stateLine st.cur ++ govLine st.env st.cur)
@@ -252,6 +253,10 @@ def step (s : Option St) (ws : List String) : Option St × String :=
   | _ =>
     match s, parseOp ws with
     | some st, some op =>
+      -- Notary.OnPersist rewards the nodes of the latest designation (GetNotaryNodes): the model's own record
+      let op := match op with
+        | .onPersist p _ txs => Op.onPersist p st.cur.notaryNodes txs
+        | o => o
       let st' := Tokens.step st op
       (some st', output st op st')
     | _, _ => (s, "bad-op")
